@@ -87,3 +87,15 @@ package merkledag
 //@   modifies wo.ErrorHandler
 //@   ensures[installed] wo.ErrorHandler != nil
 //@   ensures[first_handler_direct] old(wo.ErrorHandler) == nil ==> wo.ErrorHandler == handler
+
+// visit function of FetchGraphWithDepthLimit (free variables: set, depthLim): a node is
+// (re)visited iff it is new, or seen before only at a larger depth (shortest distance rule),
+// and within the depth limit when one is given; the set records the smallest depth seen
+//@ func FetchGraphWithDepthLimit$1
+//@   prop C12
+//@   arith int
+//@   requires set != nil
+//@   modifies mapof(set)
+//@   ensures[decision] result == ((depthLim < 0 && !old(has(set, c))) || (depthLim >= 0 && depth <= depthLim && (!old(has(set, c)) || depth < old(set[c]))))
+//@   ensures[records_depth] result ==> has(set, c) && set[c] == depth
+//@   ensures[unchanged_when_skipped] !result ==> has(set, c) == old(has(set, c)) && (old(has(set, c)) ==> set[c] == old(set[c]))
